@@ -20,7 +20,7 @@ Translation validation: the draws the real code performs (pass-through spy on np
 the integrand names it requests are compared with the extracted scripts, per gate and over whole simulator runs (a recording
 gate-set proxy gives the sequence of gate-set calls of every shot).
 """
-import contextlib, copy, json, math, struct, time, warnings
+import contextlib, copy, json, math, os, struct, subprocess, sys, time, warnings
 import numpy as np
 from qgv import core, pyexpr
 from qgv import gatecheck as gc
@@ -31,6 +31,7 @@ PYTY = {"float": float, "int": lambda x: int(x), "bool": lambda x: bool(x), "np.
         "np.int64": lambda x: np.int64(int(x)), "np.float32": np.float32, "np.float16": np.float16}
 REPR_OF_CLASS = {"f64": "float", "npf64": "np.float64", "int": "int", "i64": "np.int64", "bool": "bool", "f32": "np.float32",
                  "f16": "np.float16"}            # model type tag -> the Python / numpy type it stands for
+REDUCED = {"bool", "f32", "f16"}                  # types numpy evaluates in less than double precision (np.sin(True) is a float16)
 ALL_FIELDS = ["integrand", "theta", "a"]
 
 
@@ -221,6 +222,102 @@ class Cold:
         return self.raw(pulses[int(p[1:])], integrand, num(th), num(a), "tok:" + json.dumps(pulses[int(p[1:])]) + tok)
 
 
+# ================================================================================================ a pristine process
+class Pristine:
+    """Cold values from a process without any history.  In-process 'fresh objects' cannot expose state kept at class or module
+    level (a class-level `_cache`, a module-level memo): new objects would share it.  A server process imports the package and
+    never runs anything itself; for every question it forks a child that answers from that pristine state and exits."""
+    SERVER = "import sys\nfrom props import c10\nc10.serve()\n"
+
+    def __init__(self):
+        env = dict(os.environ)
+        env["PYTHONPATH"] = os.pathsep.join([os.path.join(core.VERIF, "harness"), os.path.join(core.REPO, "src"), env.get("PYTHONPATH", "")])
+        env["VERIF_REPO"] = core.REPO
+        self.p = subprocess.Popen([sys.executable, "-W", "ignore", "-c", self.SERVER], stdin=subprocess.PIPE, stdout=subprocess.PIPE,
+                                  text=True, env=env, cwd=core.VERIF)
+        self.n = 0
+
+    def ask(self, req):
+        self.n += 1
+        self.p.stdin.write(json.dumps(req) + "\n"); self.p.stdin.flush()
+        line = self.p.stdout.readline()
+        if not line:
+            raise RuntimeError("pristine process died")
+        out = json.loads(line)
+        if "error" in out:
+            raise RuntimeError("pristine process: " + out["error"])
+        return out
+
+    def close(self):
+        try:
+            self.p.stdin.close(); self.p.wait(timeout=10)
+        except Exception:                                   # noqa
+            self.p.kill()
+
+
+def serve():
+    import quantum_gates._gates.gates, quantum_gates.simulators      # noqa: import everything, run nothing
+    for line in sys.stdin:
+        req = json.loads(line)
+        r, w = os.pipe()
+        pid = os.fork()
+        if pid == 0:
+            try:
+                out = _answer(req)
+            except BaseException as e:                      # noqa
+                out = {"error": f"{type(e).__name__}: {e}"}
+            os.write(w, (json.dumps(out) + "\n").encode())
+            os._exit(0)
+        os.close(w)
+        data = b""
+        while True:
+            chunk = os.read(r, 1 << 16)
+            if not chunk:
+                break
+            data += chunk
+        os.close(r)
+        os.waitpid(pid, 0)
+        sys.stdout.write(data.decode()); sys.stdout.flush()
+
+
+def state_digest():
+    s = np.random.get_state()
+    return [s[0], core.sha(np.asarray(s[1]).tobytes().hex()), int(s[2]), int(s[3]), float(s[4])]
+
+
+def _answer(req):
+    pool = NanPool()
+    if req["kind"] == "gate":
+        gs, _ = alive_gate_set(req["set"], persistent=False)      # module-level instances: the (pristine) objects themselves
+        np.random.seed(req["seed"])
+        m = call_gate(gs, req["gate"], req["args"], pool)
+        return {"bytes": m.tobytes().hex(), "state": state_digest()}
+    if req["kind"] == "integrate":
+        from quantum_gates._gates.integrator import Integrator
+        try:
+            with quiet():
+                v = Integrator(pulse_obj(req["pulse"])).integrate(req["integrand"], build_num(req["theta"], pool), build_num(req["a"], pool))
+            return {"res": ["ok", canon_val(v)]}
+        except Exception as e:                              # noqa
+            return {"res": ["err", type(e).__name__]}
+    if req["kind"] == "sim":
+        from quantum_gates.simulators import MrAndersonSimulator
+        from quantum_gates._simulation import circuit as cm
+        import random as _r
+        case = req["case"]
+        qc = build_circuit(case)
+        n = case["n"]
+        dev = device_params(_r.Random(case["dev_seed"]), n)
+        psi0 = np.zeros(2 ** n); psi0[0] = 1.0
+        gs, _ = alive_gate_set(case["set"], persistent=False)
+        sim = MrAndersonSimulator(gates=gs, CircuitClass=getattr(cm, case["cls"]), parallel=False)
+        np.random.seed(case["seed"])
+        with quiet():
+            r = sim.run(t_qiskit_circ=qc, qubits_layout=list(range(n)), psi0=psi0, shots=case["shots"], device_param=dev, nqubit=n)
+        return {"res": canon_dict(r), "state": state_digest()}
+    raise KeyError(req["kind"])
+
+
 # ================================================================================================ part A: integrator histories
 A_FAMILIES = ["plain", "eq-theta-diff-a", "eq-a-diff-theta", "typed", "signed-zero", "malformed", "mixed"]
 TYPED_VALUES = [1.0, 0.5, 2.0, 0.25, 3.0, 0.0, 1.5]
@@ -320,7 +417,7 @@ def canon_key(k, pool):
     return out
 
 
-def run_integrator_case(case, pool, cold):
+def run_integrator_case(case, pool, cold, pristine=None):
     """the real code on one event history: observations for the correspondence, oracle verdict per request"""
     from quantum_gates._gates.integrator import Integrator
     objs, pulse_of, obs, oracle_fail, sign_diffs, hits = [], [], [], [], 0, 0
@@ -360,6 +457,16 @@ def run_integrator_case(case, pool, cold):
                     else:
                         oracle_fail.append({"event": len(obs) - 1, "obj": i, "pulse": case["pulses"][pulse_of[i]],
                                             "call": [integrand, dth, da], "warm": list(real), "cold": list(want)})
+    # the last request once more against a process without any history (class / module level state would be shared in-process)
+    last = max((k for k, e in enumerate(case["events"]) if e[0] == "req"), default=None)
+    if pristine is not None and last is not None and not any(f["event"] == last for f in oracle_fail):
+        _, i, integrand, dth, da = case["events"][last]
+        if dth[0] != "nan" and da[0] != "nan":
+            want = tuple(pristine.ask({"kind": "integrate", "pulse": case["pulses"][pulse_of[i]], "integrand": integrand, "theta": dth, "a": da})["res"])
+            real = tuple(obs[last]["r"][1:])
+            if want != real and not (want[0] == real[0] == "ok" and "nan" not in (want[1], real[1]) and from_bits(want[1]) == from_bits(real[1])):
+                oracle_fail.append({"event": last, "obj": i, "pulse": case["pulses"][pulse_of[i]], "call": [integrand, dth, da],
+                                    "warm": list(real), "cold": list(want), "cold_from": "pristine process"})
     final = {"cells": [[(canon_key(k, pool), canon_val(v)) for k, v in o._cache.items()] for o in objs],
              "share": [min(j for j, p in enumerate(objs) if p._cache is o._cache) for o in objs]}
     return {"obs": obs, "final": final, "model_events": model_events, "oracle_fail": oracle_fail, "sign_diffs": sign_diffs,
@@ -421,7 +528,7 @@ def type_collision(model_events, k):
         return ("v", 0.0 if f == 0 else f)
     for e in model_events[:k]:
         if e[0] == "req" and e[2] == ev[2] and val(e[3]) == val(ev[3]) and val(e[4]) == val(ev[4]) and \
-                (e[3][0], e[4][0]) != (ev[3][0], ev[4][0]):
+                (e[3][0], e[4][0]) != (ev[3][0], ev[4][0]) and REDUCED & {e[3][0], e[4][0], ev[3][0], ev[4][0]}:
             return True
     return False
 
@@ -615,7 +722,7 @@ class GateWorld:
         return k
 
 
-def run_gate_case(case, world, pool, ex, isolated=False, prewarm=None):
+def run_gate_case(case, world, pool, ex, isolated=False, prewarm=None, pristine=None):
     """returns dict(fail=None|text, detail, info)"""
     sets, persistent = {}, {}
     for gi in case["alive"]:
@@ -672,6 +779,18 @@ def run_gate_case(case, world, pool, ex, isolated=False, prewarm=None):
                 f"(max |difference| = {np.nanmax(d) if d.size else 0:.3e}; numerically equal: {bool(np.array_equal(m_warm, m_cold, equal_nan=True))})")
     elif not same_state(st_warm, st_cold):
         fail = "warm and fresh objects leave numpy's generator in different states"
+    elif pristine is not None:
+        np.random.set_state(st_warm)
+        dig = state_digest()
+        ans = pristine.ask({"kind": "gate", "set": case["sets"][gi], "gate": gate, "args": args, "seed": case["seed"]})
+        if ans["bytes"] != m_warm.tobytes().hex():
+            m_cold = np.frombuffer(bytes.fromhex(ans["bytes"]), dtype=complex).reshape(m_warm.shape)
+            d = np.abs(m_warm - m_cold)
+            fail = ("the sample on the warm objects differs from the sample a process without any history draws after the same seed "
+                    f"(max |difference| = {np.nanmax(d) if d.size else 0:.3e}); fresh objects in this process agree with the warm ones, so "
+                    "the history is kept at class or module level")
+        elif ans["state"] != dig:
+            fail = "the warm objects and a process without any history leave numpy's generator in different states"
     info = {"draws": draws, "final_reqs": [], "final_hits": 0}
     if world is not None:
         fin = world.log[mark:mark2]
@@ -757,7 +876,7 @@ def canon_dict(d):
     return [[k, canon_val(v)] for k, v in d.items()]
 
 
-def run_sim_case(case, ex, pool):
+def run_sim_case(case, ex, pool, pristine=None):
     import random as _r
     from quantum_gates.simulators import MrAndersonSimulator
     from quantum_gates._simulation import circuit as cm
@@ -807,6 +926,8 @@ def run_sim_case(case, ex, pool):
         out["fail"] = "a run on the used simulator object and a run on fresh objects after the same seed differ"
     elif snap() != before:
         out["fail"] = "the run modified the caller's psi0 / device parameters / layout / circuit"
+    elif pristine is not None and pristine.ask({"kind": "sim", "case": case})["res"] != r1:
+        out["fail"] = "a run on the used simulator object differs from the run a process without any history performs after the same seed"
     elif r4 != r1:
         out["fail"] = "a run through a pass-through recording proxy of the gate set differs (the shot loop depends on more than the gate set's methods)"
     out.update(r1=r1, r2=r2, r3=r3, calls=calls, draws=draws, cache_growth=cache_after - cache_before)
@@ -842,6 +963,7 @@ def main(ctx):
     known = known_keys()
     pool = NanPool()
     cold = Cold(pool)
+    pristine = Pristine()
     violations = []                    # (sig, replay, what)
     corr_mism, script_mism = [], []
     hist = {"A_family": {}, "A_status": {}, "B_family": {}, "B_gate": {}, "B_integrator_status": {}, "C_class": {}, "C_set": {}}
@@ -870,7 +992,7 @@ def main(ctx):
     realsA, reqsA = [], []
     sign_diffs = 0
     for case in casesA:
-        real = run_integrator_case(case, pool, cold)
+        real = run_integrator_case(case, pool, cold, pristine)
         realsA.append(real)
         reqsA.append(driver_request(cfg, real["model_events"], known))
         ctx.count(sum(1 for e in case["events"] if e[0] == "req"))
@@ -913,8 +1035,8 @@ def main(ctx):
         casesB.append(gen_gate_case(rng, rng.choice(B_FAMILIES), set_descs, len(casesB)))
     script_cases = 0
     for case in casesB:
-        res = run_gate_case(case, world, pool, ex)
-        ctx.count(len(case["history"]) + 3)
+        res = run_gate_case(case, world, pool, ex, pristine=pristine)
+        ctx.count(len(case["history"]) + 4)
         bump("B_family", case["family"]); bump("B_gate", case["final"][1])
         info = res["info"]
         if info["final_hits"] and case["history"]:
@@ -931,7 +1053,7 @@ def main(ctx):
         if res["fail"]:
             # is the failure reproducible from the case alone (fresh objects for everything)?  if not, add the colliding earlier
             # requests the persistent gate set served in previous cases
-            iso = run_gate_case(case, None, pool, ex, isolated=True)
+            iso = run_gate_case(case, None, pool, ex, isolated=True, pristine=pristine)
             prewarm = None
             if not iso["fail"]:
                 gi, k = res["gs_index"], res["world_k"]
@@ -944,10 +1066,11 @@ def main(ctx):
                         if d not in pw:
                             pw.append(d)
                 prewarm = {str(gi): pw}
-                iso = run_gate_case(case, None, pool, ex, isolated=True, prewarm=prewarm)
+                iso = run_gate_case(case, None, pool, ex, isolated=True, prewarm=prewarm, pristine=pristine)
             fin = info["final_reqs"]
             coll = any(r[4] == "hit" and any(e[0] == r[0] and e[1] == r[1] and e[4] in ("miss", "pre") and float(e[2]) == float(r[2])
                                              and float(e[3]) == float(r[3]) and (class_of_obj(e[2]), class_of_obj(e[3])) != (class_of_obj(r[2]), class_of_obj(r[3]))
+                                             and REDUCED & {class_of_obj(e[2]), class_of_obj(e[3]), class_of_obj(r[2]), class_of_obj(r[3])}
                                              for e in world.log[: info["new_log"][1]]) for r in fin)
             cls = "numeric-type-collision" if coll else "other"
             gi, gate, args = case["final"]
@@ -988,8 +1111,8 @@ def main(ctx):
     casesC.append(gcase)
     sim_script_cases = 0
     for case in casesC:
-        res = run_sim_case(case, ex, pool)
-        ctx.count(4)
+        res = run_sim_case(case, ex, pool, pristine)
+        ctx.count(5)
         bump("C_class", case["cls"]); bump("C_set", case["set"][0])
         nontrivial.add(core.sha(["C", case["ops"], case["cls"], case["set"]]))
         if res["cache_growth"]:
@@ -1004,10 +1127,13 @@ def main(ctx):
                 if any(res["calls"][i * per:(i + 1) * per] != res["calls"][:per] for i in range(case["shots"])):
                     script_mism.append(f"simulator run ({case['cls']}): the shots issue different gate-set call sequences")
         if res["fail"]:
-            violations.append(({"kind": "simulator-rerun", "class": case["cls"]}, {"level": "simulator", "case": case, "failure": res["fail"],
+            violations.append(({"kind": "simulator-rerun"}, {"level": "simulator", "case": case, "failure": res["fail"],
                                "first": res["r1"], "second": res["r2"], "fresh": res["r3"]},
                                f"MrAndersonSimulator({case['set']}, {case['cls']}), {case['n']} qubits, {case['shots']} shot(s), seed {case['seed']}: {res['fail']}"))
     ctx.sample({"part": "C", "class": casesC[0]["cls"], "gate_set": casesC[0]["set"], "ops": casesC[0]["ops"][:8], "shots": casesC[0]["shots"]})
+
+    cov["pristine_process_questions"] = pristine.n
+    pristine.close()
 
     # ---------------------------------------------------------------- the model (one driver batch)
     t_model = time.time()
@@ -1082,16 +1208,25 @@ def main(ctx):
     cov["timing_s"] = {"total_python": round(time.time() - t_start, 1), "model": round(time.time() - t_model, 1)}
 
     # ---------------------------------------------------------------- verdicts
-    seen = set()
-    # one VIOLATION per signature; the replay is the smallest gate-level case if there is one (the property speaks of sampled gates)
-    order = sorted(range(len(violations)), key=lambda i: (violations[i][1].get("level") != "gate", len(json.dumps(violations[i][1])), i))
-    for i in order:
-        sig, rp, what = violations[i]
-        k = json.dumps(sig, sort_keys=True)
-        if k in seen:
-            continue
-        seen.add(k)
-        rp["failing_cases_with_this_signature"] = sum(1 for v in violations if json.dumps(v[0], sort_keys=True) == k)
+    # one VIOLATION per signature.  Candidates are tried smallest first (gate level before the others: the property speaks of sampled
+    # gates) through the official replay path in a fresh interpreter; the first one that reproduces from its replay alone is reported.
+    # (A case can also fail because of what EARLIER cases left behind at class / module level; such a case is only reported, with a
+    # note, if no candidate of its signature is self-contained.)
+    by_sig = {}
+    for i in sorted(range(len(violations)), key=lambda i: (violations[i][1].get("level") != "gate", len(json.dumps(violations[i][1])), i)):
+        by_sig.setdefault(json.dumps(violations[i][0], sort_keys=True), []).append(i)
+    for k, idxs in by_sig.items():
+        chosen, tried = None, 0
+        for i in idxs[:4]:
+            tried += 1
+            if reproduces(violations[i][1]):
+                chosen = i
+                break
+        sig, rp, what = violations[chosen if chosen is not None else idxs[0]]
+        rp["failing_cases_with_this_signature"] = len(idxs)
+        rp["replay_reproduces_in_a_fresh_interpreter"] = chosen is not None
+        if chosen is None:
+            what += f" [none of the {tried} smallest cases of this signature fails from its replay alone: the failure depends on state earlier cases of this run left behind]"
         ctx.violation(sig, rp, what)
     cov["oracle_failures"] = len(violations)
     if not violations:
@@ -1107,6 +1242,22 @@ def main(ctx):
                 print(f"[{ctx.pid}] additionally ({what}): {l[0]}" + (f" (+{len(l) - 1} more)" if len(l) > 1 else ""))
         if lean is not None and not lean.ok:
             print(f"[{ctx.pid}] additionally: Lean obligations fail: {sorted(lean.failed)[:4]}")
+
+
+def reproduces(rp):
+    """does the official replay path, in a fresh interpreter, fail on this replay record?"""
+    import tempfile
+    with tempfile.NamedTemporaryFile("w", suffix=".json", prefix="c10-candidate-", delete=False) as f:
+        json.dump({"replay": rp}, f, default=str)
+    try:
+        env = dict(os.environ); env["VERIF_REPO"] = core.REPO
+        p = subprocess.run([sys.executable, "-W", "ignore", os.path.join(core.VERIF, "harness", "run.py"), "C10", "--replay", f.name],
+                           capture_output=True, text=True, env=env, timeout=600)
+        return p.returncode == 1 and "oracle:" in p.stdout
+    except Exception:                                       # noqa
+        return False
+    finally:
+        os.unlink(f.name)
 
 
 def type_name(x):
@@ -1131,10 +1282,21 @@ def replay(ctx, path):
     rp = json.load(open(path))["replay"]
     level = rp.get("level")
     pool = NanPool()
+    if level not in ("integrator", "gate", "simulator"):
+        print("replay names a broken obligation, no input to re-run:", json.dumps(rp)[:600])
+        return 1
+    pristine = Pristine()
+    try:
+        return _replay(rp, level, pool, pristine)
+    finally:
+        pristine.close()
+
+
+def _replay(rp, level, pool, pristine):
     if level == "integrator":
         cold = Cold(pool)
         case = {"pulses": rp["pulses"], "events": rp["events"]}
-        real = run_integrator_case(case, pool, cold)
+        real = run_integrator_case(case, pool, cold, pristine)
         for k, (e, o) in enumerate(zip(case["events"], real["obs"])):
             print(k, e, "->", o)
         bad = real["oracle_fail"]
@@ -1145,7 +1307,7 @@ def replay(ctx, path):
         return 1 if bad else 0
     if level == "gate":
         case = rp["case"]
-        res = run_gate_case(case, None, pool, None, isolated=True, prewarm=rp.get("prewarm"))
+        res = run_gate_case(case, None, pool, None, isolated=True, prewarm=rp.get("prewarm"), pristine=pristine)
         gi, gate, args = case["final"]
         print("gate sets alive:", [case["sets"][i] for i in case["alive"]])
         for g, n, a in case["history"]:
@@ -1156,7 +1318,7 @@ def replay(ctx, path):
         print("oracle:", res["fail"] or "holds (warm, repeated and fresh samples are bit-identical)")
         return 1 if res["fail"] else 0
     if level == "simulator":
-        res = run_sim_case(rp["case"], None, pool)
+        res = run_sim_case(rp["case"], None, pool, pristine)
         print("case:", {k: rp["case"][k] for k in ("cls", "set", "n", "shots", "seed", "ops")})
         print("first :", res["r1"]); print("second:", res["r2"]); print("fresh :", res["r3"])
         print("oracle:", res["fail"] or "holds")
